@@ -26,6 +26,7 @@ acceptable outcome - this is the "does not require" list in executable form:
   cmdflag-obj    whether $XONSH_SUBPROC_CMD_RAISE_ERROR overrides the `!()` exemption.
   cmdflag-stage  whether $XONSH_SUBPROC_CMD_RAISE_ERROR raises for a failing NON-last pipeline stage.
   if-raises      whether an `if <chain>:` condition whose last command failed raises or is just false.
+  noexec-build-error  a `./file` without x bit: a failed command, or refused up front with XonshError.
 """
 
 ARGS = {"name": [], "pyexpr": ["-x"], "words": ["x"], "nonpy": ["-x=1", "y"]}
@@ -41,14 +42,30 @@ class Need(Exception):
 
 
 class _Stop(Exception):
-    def __init__(self, rc):
+    def __init__(self, rc, cls="CalledProcessError"):
         self.rc = rc
+        self.cls = cls
+
+
+# operand "kind" (optional key, default "alias" = a command that runs and returns its assigned code):
+#   missing  a word that is no alias and not on $PATH            noexec  ./file without an x bit
+#   dir      ./directory                                          sig     a real child that kills itself (rc -15)
+#   sigp     like sig, but the child logs before it dies (process-level runs, where every command is a real child)
+# A command that cannot be started is a failed command: false for and/or, raising under the same flags as a
+# non-zero code (returncode not prescribed).  It leaves no entry in the run log (there is nothing to run).
+KIND_WORD = {"missing": "zz{n}", "noexec": "./nx{n}", "dir": "./dd{n}", "sig": "k{n}", "sigp": "k{n}"}
+SILENT_KINDS = ("missing", "noexec", "dir", "sig")
+ANYRC = "?"  # some non-zero code
 
 
 def names(i, op):
     """Command names of operand i (0-based): main (= last stage), first pipeline stage, injected inner."""
     n = i + 1
-    return {"main": f"q{n}" if op["pipe"] else f"m{n}", "first": f"p{n}" if op["pipe"] else None, "inj": f"j{n}" if op["form"] == "inj" else None}
+    main = f"q{n}" if op["pipe"] else f"m{n}"
+    kind = op.get("kind", "alias")
+    if kind != "alias":
+        main = KIND_WORD[kind].format(n=n)
+    return {"main": main, "first": f"p{n}" if op["pipe"] else None, "inj": f"j{n}" if op["form"] == "inj" else None}
 
 
 def entry(name, op):
@@ -62,7 +79,8 @@ def operand_entries(i, op):
         out.append(nm["inj"] + " x")
     if nm["first"]:
         out.append(entry(nm["first"], op))
-    out.append(entry(nm["main"], op))
+    if op.get("kind", "alias") not in SILENT_KINDS:
+        out.append(entry(nm["main"], op))
     return out
 
 
@@ -131,7 +149,12 @@ def ref_once(prog, codes, R, C, ch, cblind=()):
             st["lazy"] = True
             return True
         log.extend(operand_entries(i, op))
-        rc = code(nm["main"])
+        kind = op.get("kind", "alias")
+        if kind == "noexec" and ch("noexec-build-error", 2):
+            # a file without x bit may also be refused before anything is launched (XonshError), whatever the flags
+            raise _Stop(ANYRC, "XonshError")
+        rc = code(nm["main"]) if kind == "alias" else (-15 if kind in ("sig", "sigp") else ANYRC)
+        st["rc"] = rc
         rc_first = code(nm["first"]) if nm["first"] else 0
         cflag = C and i not in cblind
         if rc and op["dec"] == "error_raise":
@@ -171,13 +194,13 @@ def ref_once(prog, codes, R, C, ch, cblind=()):
     try:
         ev(prog["tree"], prog["stmt"] == "if")
     except _Stop as s:
-        exc, where = ("CalledProcessError", s.rc), "cmd"
+        exc, where = (s.cls, None if s.rc == ANYRC else s.rc), "cmd"
     else:
         op = ops[st["last"]]
-        rc = 0 if st["lazy"] else code(names(st["last"], op)["main"])
+        rc = 0 if st["lazy"] else st["rc"]
         if R and rc and op["form"] != "obj" and op["dec"] != "error_ignore":
             if prog["stmt"] != "if" or ch("if-raises", 2) == 0:
-                exc, where = ("CalledProcessError", rc), "stmt"
+                exc, where = ("CalledProcessError", None if rc == ANYRC else rc), "stmt"
     if exc is None and prog["sep"]:
         log.append("after")
     return (tuple(log), exc, st["last"], where)
